@@ -358,9 +358,10 @@ def _decrypt_hmac(key: bytes, data: bytes, digest: str) -> bytes:
     cipher = _create_cipher(key, iv)
 
     decrypted = cipher.decrypt(encrypted)
-    if decrypted[-1] <= 16:
-        # PKCS#7 padding
-        decrypted = decrypted[: -decrypted[-1]]
+    padding = decrypted[-1]
+    if 0 < padding <= 16 and decrypted.endswith(bytes([padding]) * padding):
+        # PKCS#7 padding, only well-formed padding is removed so that altered padding bytes fail the HMAC
+        decrypted = decrypted[:-padding]
 
     # We don't do any secret crypto so we don't care about the warning in the docs about timing attacks
     # The stored MAC can be a truncated digest (e.g. HMAC-SHA-1-128)
